@@ -105,8 +105,28 @@ class Run:
         self.notes.append(text)
 
     # ------------------------------------------------------------------ results
-    def violations(self):
-        return [o for o in self.obligations if o.status == "violation"]
+    def _known_keys(self):
+        if getattr(self, "_kk", None) is None:
+            self._kk = {k["key"]: k for k in load_known_findings() if k.get("property") == self.prop and k.get("status") == "known" and "key" in k}
+        return self._kk
+
+    def violations(self, include_known=False):
+        """Violations that are not listed as known findings (a listed finding is reported as KNOWN-FINDING only)."""
+        out = [o for o in self.obligations if o.status == "violation"]
+        if include_known:
+            return out
+        kk = self._known_keys()
+        return [o for o in out if o.key() not in kk]
+
+    def known_hits(self):
+        """The known-findings entries whose construct is (still) reported on the analysed tree."""
+        kk = self._known_keys()
+        seen, out = set(), []
+        for o in self.obligations:
+            if o.status == "violation" and o.key() in kk and o.key() not in seen:
+                seen.add(o.key())
+                out.append(kk[o.key()])
+        return out
 
     def count(self, rule):
         return sum(1 for o in self.obligations if o.rule == rule)
